@@ -377,7 +377,9 @@ func (l *MultiplexingListener) IngressConn(conn net.Conn, err error) {
 	l.closedMutex.RLock()
 	defer l.closedMutex.RUnlock()
 	if l.closed {
-		conn.Close()
+		if !nodeenrollment.IsNil(conn) {
+			conn.Close()
+		}
 		return
 	}
 	verifhook.Point("mux.ingress.send")
